@@ -59,6 +59,13 @@ CLAIMED = {
              "identities); dump() newest-first; view(time) with a SYMBOLIC per-element time == recorded value interpolated by the reducer's documented rule "
              "(analytic decay / elapsed time / previous / linear), plus scalar grid times; dt in {1.0, 1.3}, duration {0,(dt),2dt}, in-place and not.",
         ref="6/C07"),
+    "C08": dict(
+        text="Real Serial layer + real trainer (monitors, reducers, hooks) + real Updater, scripted post population, T=4 (6 thorough; 3 for per-sample "
+             "signals) steps on SYMBOLIC pre/post spike histories (indicator arithmetic) and symbolic per-sample reward magnitudes (forked on sign): the "
+             "accumulated potentiation and depression parts and the weight after update() equal the documented closed-form pair sums - STDP, TripletSTDP, "
+             "MSTDP, MSTDPET x cumulative/nearest x 4 sign modes x dense/direct/lateral cells x no delay / per-synapse grid delays with delayed=True / "
+             "delayed=False x batch 2 with sum/mean reduction.",
+        ref="6/C08"),
     "C10": dict(
         text="One updater application from an arbitrary symbolic parameter with 0-3 symbolic potentiating and depressing parts: param' = param + "
              "B_up(reduce(pos)) - B_lo(reduce(neg)) for reductions {default, sum, mean, amax, custom passed at construction} x bounding {none, upper, lower, "
